@@ -43,7 +43,9 @@ ObsNow  == ObsAt(c, Len(hist), idx)
 ObsPrev == IF Len(hist) = 0 THEN <<"n">> ELSE ObsAt(c, Len(hist) - 1, idx \div A)
 ObsInit == ObsAt(c, 0, 0)
 ExtraNow(name) == Line(c, Len(hist)).x[idx + 1][name]
-Raw == Force([i \in 1..Len(hist) |-> QFrac(hist[i], Unit)])
+(* the input symbol 2147483647 is fed to the code as the IEEE value -0.0; as a number it is 0 *)
+NegZero == 2147483647
+Raw == Force([i \in 1..Len(hist) |-> QFrac(IF hist[i] = NegZero THEN 0 ELSE hist[i], Unit)])
 
 (* tolerance of a value comparison: tolNum/tolDen absolute, scaled by max(1, |expected|) *)
 TolQ(q, eps)  == QMul(eps, QMax(QOne, QAbs(q)))
